@@ -117,7 +117,7 @@ def classes(case):
 
 @st.composite
 def _cases(draw):
-    spec = draw(models.model_specs())
+    spec = draw(models.model_specs(open_patterns=True))
     if draw(st.integers(0, 2)) == 0:
         j = draw(trees.wf_trees(spec, max_nodes=8))
     else:
